@@ -241,6 +241,26 @@ class Gen:
             self.observe_hist(oid)
         sc.add("heads", "heads %s" % hx(oid), kind="plain", id=oid)
 
+    def diverge(self, oid):
+        """one client stages on the current head; the other purges the object, creates it again and commits
+        fewer, as many or more versions; then the first client commits its now baseless staged version"""
+        sc, rng = self.sc, self.rng
+        sc.add("client", "client 0", kind="skipd")
+        sc.add("cpx", "cpx %s 0 %s %s" % (hx(oid), hx("diverged/"), hx(rng.choice(EXT_FILES))), kind="mut", id=oid)
+        self.observe_staged(oid)
+        sc.add("client", "client 1", kind="skipd")
+        sc.add("purge", "purge %s" % hx(oid), kind="mut", id=oid)
+        sc.add("new", "new %s %s %s 0 -" % (hx(oid), self.objs.get(oid, {}).get("alg", "sha512"), hx(self.objs.get(oid, {}).get("cdir", "content") or "content")),
+               kind="mut", id=oid, cdir=self.objs.get(oid, {}).get("cdir", "content"))
+        for k in range(rng.choice([1, 1, 2, 3])):
+            sc.add("cpx", "cpx %s 0 %s %s" % (hx(oid), hx("again%d/" % k), hx(rng.choice(EXT_FILES))), kind="mut", id=oid)
+            self.commit(oid)
+        sc.add("client", "client 0", kind="skipd")
+        self.commit(oid)
+        # the refused version has no base any more; reading it back is not meaningful: drop it
+        sc.add("resetall", "resetall %s" % hx(oid), kind="mut", id=oid)
+        self.observe_staged(oid)
+
     def path_pool(self, oid=None):
         files, dirs = self.known.get(oid, ([], []))
         if files and self.rng.random() < (0.9 if self.hostile else 0.75):
@@ -262,6 +282,9 @@ class Gen:
             self.observe_staged(oid)
             return
         oid = rng.choice(self.ids)
+        if self.two_clients and rng.random() < 0.12:
+            self.diverge(oid)
+            return
         if self.two_clients and rng.random() < 0.35:
             sc.add("client", "client %d" % rng.randint(0, 1), kind="skipd")
         op = rng.choices(["cpx", "mvx", "cpi", "mvi", "rm", "resetp", "resetall", "commit", "purge", "upgrade", "new"],
